@@ -333,3 +333,58 @@ Proof.
   intros Hs Hb. destruct (N.eq_dec (lenN l) 0) as [->|Hne]; [lia|].
   pose proof (sorted_lt_ge_index l (lenN l - 1) Hs ltac:(lia)). pose proof (Hb (lenN l - 1) ltac:(lia)). lia.
 Qed.
+
+(* ---------------------------------------------------------------- successor / predecessor lists of a sorted list *)
+
+Lemma skipN_0 {A} (l : list A) : skipN l 0 = l.
+Proof. destruct l; reflexivity. Qed.
+Lemma skipN_cons_pos {A} (x : A) t r : r <> 0 -> skipN (x :: t) r = skipN t (r - 1).
+Proof. intros H. cbn [skipN]. replace (r =? 0) with false by lia. reflexivity. Qed.
+
+Lemma drop_below_sorted l i0 v : sorted_le l ->
+  drop_below (index_from l i0) v = skipN (index_from l i0) (vs_rank l v).
+Proof.
+  revert i0. induction l as [|a t IH]; intros i0 Hs; [reflexivity|].
+  cbn [index_from drop_below vs_rank]. destruct (N.ltb_spec a v) as [Hav|Hav].
+  - rewrite skipN_cons_pos by lia. replace (1 + vs_rank t v - 1) with (vs_rank t v) by lia.
+    apply IH. apply (sorted_le_tail _ _ Hs).
+  - rewrite (vs_rank_zero_of_ge a t v Hs Hav). replace (0 + 0) with 0 by lia. rewrite skipN_0. reflexivity.
+Qed.
+
+Lemma vs_succ_eq l v : sorted_le l -> vs_succ l v = skipN (vs_ranked l) (vs_rank l v).
+Proof. intros Hs. unfold vs_succ, vs_ranked. apply drop_below_sorted. exact Hs. Qed.
+
+Lemma pred_suffix_sorted l i0 v best : sorted_le l ->
+  pred_suffix_aux (index_from l i0) v best =
+  if vs_rank l (v + 1) =? 0 then best else skipN (index_from l i0) (vs_rank l (v + 1) - 1).
+Proof.
+  revert i0 best. induction l as [|a t IH]; intros i0 best Hs; [reflexivity|].
+  cbn [index_from pred_suffix_aux vs_rank]. destruct (N.leb_spec a v) as [Hav|Hav].
+  - replace (a <? v + 1) with true by lia. rewrite IH by apply (sorted_le_tail _ _ Hs).
+    replace (1 + vs_rank t (v + 1) =? 0) with false by lia.
+    replace (1 + vs_rank t (v + 1) - 1) with (vs_rank t (v + 1)) by lia.
+    destruct (N.eqb_spec (vs_rank t (v + 1)) 0) as [Hz|Hz].
+    + rewrite Hz, skipN_0. reflexivity.
+    + rewrite skipN_cons_pos by exact Hz. reflexivity.
+  - replace (a <? v + 1) with false by lia.
+    rewrite (vs_rank_zero_of_ge a t (v + 1) Hs ltac:(lia)). reflexivity.
+Qed.
+
+Lemma vs_pred_eq l v : sorted_le l ->
+  vs_pred l v = if vs_rank l (v + 1) =? 0 then [] else skipN (vs_ranked l) (vs_rank l (v + 1) - 1).
+Proof. intros Hs. unfold vs_pred, vs_ranked. apply pred_suffix_sorted. exact Hs. Qed.
+
+Lemma hd_skipN_index_from l i0 j :
+  hd_error (skipN (index_from l i0) j) = if j <? lenN l then Some (i0 + j, nthd l j) else None.
+Proof.
+  revert i0 j. induction l as [|a t IH]; intros i0 j.
+  - cbn [index_from skipN hd_error]. change (lenN (@nil N)) with 0. replace (j <? 0) with false by lia. reflexivity.
+  - cbn [index_from]. rewrite lenN_cons, nthd_cons. destruct (N.eqb_spec j 0) as [E|E].
+    + subst j. rewrite skipN_0. cbn [hd_error]. replace (0 <? lenN t + 1) with true by lia. do 2 f_equal. lia.
+    + rewrite skipN_cons_pos by exact E. rewrite IH.
+      destruct (N.ltb_spec (j - 1) (lenN t)); [replace (j <? lenN t + 1) with true by lia|replace (j <? lenN t + 1) with false by lia]; [|reflexivity].
+      do 2 f_equal. lia.
+Qed.
+
+Lemma hd_skipN_ranked l j : hd_error (skipN (vs_ranked l) j) = if j <? lenN l then Some (j, nthd l j) else None.
+Proof. unfold vs_ranked. rewrite hd_skipN_index_from. destruct (j <? lenN l); [do 2 f_equal; lia|reflexivity]. Qed.
